@@ -10,9 +10,23 @@ RULE = ('cases = multi-atom (outer, inner) histories x minimal_residence in 0..4
         'sites {-1,0,1} with every inner variant (inner in {-1, outer}) up to length 5 (quick: all of length<=4 + sample of 5; '
         'thorough: all <=6, plus 3-site histories), packed 8 atoms per case, plus random long histories; '
         'non-trivial = at least one default jump')
-TRUSTED = ['pandas groupby/iterrows row order and Series aliasing in the scan loop (value semantics in the model; validated by the tie)']
+TRUSTED = ['translator unit jumpstep (harness/translate.py): the loop body is regenerated from the source and proved to refine Model.C04.step on every run', 'pandas groupby/iterrows row order and Series aliasing in the scan loop (value semantics in the model; validated by the tie)']
 ASSUMPTIONS = ['events are those of C03 (events_from); the scan loop is modelled with value semantics']
 MRS = [0, 1, 2, 3, 5]
+HEADER = '''From GV Require Import Gen.JumpStepDef.
+(* the loop body regenerated from the source, evaluated on the same inputs as the hand-written model *)
+Fixpoint gen_agrees_atoms (mr a : Z) (atoms : list (list Z * list Z)) : bool :=
+  match atoms with
+  | [] => true
+  | (o, i) :: r => list_eqb jump_eqb (gen_scan mr (events_from a 0 o i)) (scan mr (events_from a 0 o i)) && gen_agrees_atoms mr (a + 1) r
+  end.
+Definition bad (cs : list case) : list nat :=
+  false_idx (map (fun c => check c && forallb (fun r => gen_agrees_atoms (fst r) 0 (fst c)) (snd c)) cs).'''
+
+
+def pre_build():
+    import translate
+    return [translate.gen_jump_step()]
 
 
 class _Sites:
